@@ -70,6 +70,7 @@ class FuncInfo:
         self.recursive = False
         self.measure = None
         self.returns_alias = False
+        self.out_params = []       # record parameters whose elements the function changes: returned next to the result
         self.calls = []
 
     def value_type(self):
@@ -79,9 +80,9 @@ class FuncInfo:
         return self.value_type()
 
     def full_type(self, mod):
-        if self.mutates:
-            return mod.cls_type if self.ret_mode == "unit" else TProd([mod.cls_type, self.value_type()])
-        return self.value_type()
+        parts = ([mod.cls_type] if self.mutates else []) + [t for n, t, _ in self.params if n in self.out_params] \
+            + ([] if self.ret_mode == "unit" else [self.value_type()])
+        return TUnit if not parts else (parts[0] if len(parts) == 1 else TProd(parts))
 
 
 def always_returns(stmts):
@@ -94,10 +95,18 @@ def always_returns(stmts):
 
 
 class Module:
-    def __init__(self, repo, relfile, cls_name):
+    def __init__(self, repo, relfile, cls_name, spec=None):
         self.repo, self.relfile, self.cls_name = repo, relfile, cls_name
+        self.spec = spec or {}
+        self.namespace = self.spec.get("namespace", "SparseSpace.Gen")
+        self.state_name = self.spec.get("state_name", cls_name)
+        self.assume = {k: list(v) for k, v in self.spec.get("assume", {}).items()}
+        self.fuel = {k: (v if isinstance(v, list) else [v]) for k, v in self.spec.get("fuel", {}).items()}
+        self.ignore_calls = set(self.spec.get("ignore_calls", []))
+        self.records = {}
+        self.objects = {}          # classes translated elsewhere (another generated module): name -> {lean_type, namespace, import, methods}
+        self.records_log = []
         self.trefs = {}
-        self.records = []
         self.shared_attrs, self.mutated_attrs = {}, {}
         self.calls = Calls(self)
         self.cur_scope = None
@@ -105,27 +114,57 @@ class Module:
         self.src = open(path, encoding="utf-8").read()
         tree = ast.parse(self.src, filename=relfile)
         self.scope = Scope(tree)
+        self.scope.modules.update(self.spec.get("modules", {}))
+        for name, o in self.spec.get("objects", {}).items():
+            self.objects[name] = dict(o, methods={})
+        for name, o in self.spec.get("objects", {}).items():
+            for m, sig in o.get("methods", {}).items():
+                self.objects[name]["methods"][m] = {"args": [self.type_of_text(a) for a in sig.get("args", [])], "mutates": bool(sig.get("mutates")),
+                                                    "ret": self.type_of_text(sig["ret"]) if sig.get("ret") else None}
+        for name in self.spec.get("records", {}):        # declared interfaces of classes of other modules (two passes: they may refer to each other)
+            self.records[name] = {"fields": [], "getters": {}}
+        for name, r in self.spec.get("records", {}).items():
+            self.records[name]["fields"] = [(f, self.type_of_text(t)) for f, t in r.get("fields", {}).items()]
+            self.records[name]["getters"] = {m: self.type_of_text(t) for m, t in r.get("getters", {}).items()}
         self.ext_classes = {k: v for k, v in EXT_CLASSES.items() if self.scope.names.get(k, "").endswith("." + k)}
         cdef = [n for n in tree.body if isinstance(n, ast.ClassDef) and n.name == cls_name]
         if len(cdef) != 1:
             raise Unsupported("class %s not found in %s" % (cls_name, relfile))
         cdef = cdef[0]
-        self.cls_type = TObj(cls_name)
+        self.cls_type = TObj(self.state_name)
         self.funcs = {}
+        methods = {}
         for n in cdef.body:
             if isinstance(n, ast.FunctionDef):
-                if n.name in self.funcs:
+                if n.name in methods:
                     raise Unsupported("method %s defined twice" % n.name, n)
-                self.funcs[n.name] = FuncInfo(n, True, self.scope, relfile)
+                methods[n.name] = n
             elif isinstance(n, (ast.Assign, ast.AnnAssign)):
                 raise Unsupported("class-level attribute", n)
             elif not (isinstance(n, ast.Expr) and isinstance(n.value, ast.Constant)) and not isinstance(n, ast.Pass):
                 raise Unsupported("unsupported class member %s" % type(n).__name__, n)
-        self.fields = {}
+        selected = self.spec.get("functions")
+        if selected is None:
+            selected = list(methods)
+        else:                                             # the slice: the listed methods and every method of the class they call
+            todo = list(selected)
+            while todo:
+                f = todo.pop()
+                if f not in methods:
+                    raise Unsupported("method %s of the spec not found in class %s" % (f, cls_name))
+                for c in ast.walk(methods[f]):
+                    if isinstance(c, ast.Call) and isinstance(c.func, ast.Attribute) and isinstance(c.func.value, ast.Name) \
+                            and c.func.value.id in ("self", cls_name) and c.func.attr in methods and c.func.attr not in selected:
+                        selected.append(c.func.attr)
+                        todo.append(c.func.attr)
+        for name in methods:
+            if name in selected:
+                self.funcs[name] = FuncInfo(methods[name], True, self.scope, relfile)
+        self.fields = {f: self.type_of_text(t) for f, t in self.spec.get("fields", {}).items()}
         for fn in list(self.funcs.values()):
             for n in ast.walk(fn.node):
                 if isinstance(n, ast.Attribute) and isinstance(n.ctx, ast.Store) and isinstance(n.value, ast.Name):
-                    if n.value.id == "self" and fn.is_method:
+                    if n.value.id == "self" and fn.is_method and "fields" not in self.spec:
                         self.fields.setdefault(n.attr, TVar())
                     elif n.value.id == cls_name:
                         raise Unsupported("assignment to the class attribute %s.%s (shared by all instances)" % (cls_name, n.attr), n)
@@ -177,8 +216,8 @@ class Module:
                         fn.calls.append(c)
                 if isinstance(n, (ast.FunctionDef, ast.AsyncFunctionDef)) and n is not fn.node:
                     raise Unsupported("nested function definition", n)
-                if isinstance(n, (ast.Global, ast.Nonlocal, ast.Yield, ast.YieldFrom, ast.Await, ast.While, ast.Try, ast.With,
-                                  ast.Delete, ast.Raise, ast.ClassDef, ast.Break, ast.Continue)):
+                if isinstance(n, (ast.Global, ast.Nonlocal, ast.Yield, ast.YieldFrom, ast.Await, ast.Try, ast.With,
+                                  ast.Delete, ast.Raise, ast.ClassDef, ast.Continue)):
                     raise Unsupported("unsupported statement %s in %s" % (type(n).__name__, fn.name), n)
             fn.recursive = fn in fn.calls
         # state-changing methods (fixpoint over the call graph)
@@ -200,6 +239,12 @@ class Module:
                             v = t.value
                             if isinstance(v, ast.Attribute) and isinstance(v.value, ast.Name) and v.value.id == "self":
                                 fn.mutates = True
+        for fn in self.funcs.values():
+            for n in ast.walk(fn.node):
+                if isinstance(n, ast.Call):
+                    om = self.object_method(fn, n)
+                    if om is not None and om[2]["mutates"]:
+                        fn.mutates = True
         changed = True
         while changed:
             changed = False
@@ -222,6 +267,17 @@ class Module:
                     fn.returns_alias = True
                 if isinstance(v, ast.Name) and v.id in [a.arg for a in fn.node.args.args]:
                     fn.returns_alias = True
+        # out-parameters: `for x in p.member(): ... x.attr = ...` with p a parameter
+        for fn in self.funcs.values():
+            pnames = [a.arg for a in fn.node.args.args]
+            for n in ast.walk(fn.node):
+                if isinstance(n, ast.For) and isinstance(n.target, ast.Name):
+                    src = n.iter.func if isinstance(n.iter, ast.Call) else n.iter
+                    if isinstance(src, ast.Attribute) and isinstance(src.value, ast.Name) and src.value.id in pnames and src.value.id != "self" \
+                            and any(isinstance(m, ast.Attribute) and isinstance(m.ctx, ast.Store) and isinstance(m.value, ast.Name)
+                                    and m.value.id == n.target.id for b in n.body for m in ast.walk(b)):
+                        if src.value.id not in fn.out_params:
+                            fn.out_params.append(src.value.id)
         # mutual recursion is not supported; order: callees first, otherwise source order
         order, state = [], {}
 
@@ -242,6 +298,17 @@ class Module:
         self.order = order
 
     # ------------------------------------------------------------------ bookkeeping
+    def object_method(self, fn, call):
+        """`self.<field>.<method>(..)` with <field> an object of another generated module -> (field, object description, method description)"""
+        f = call.func
+        if isinstance(f, ast.Attribute) and isinstance(f.value, ast.Attribute) and isinstance(f.value.value, ast.Name) \
+                and f.value.value.id == "self" and fn.is_method and f.value.attr in self.fields:
+            t = self.fields[f.value.attr].find()
+            for o in self.objects.values():
+                if t.kind == "obj" and t.name == o["lean_type"] and f.attr in o["methods"]:
+                    return f.value.attr, o, o["methods"][f.attr]
+        return None
+
     def tref(self, t):
         n = len(self.trefs)
         self.trefs[n] = t
@@ -249,13 +316,23 @@ class Module:
 
     def record(self, what, fn, node, text):
         r = {"kind": what, "function": fn.name, "file": fn.relfile, "line": getattr(node, "lineno", 0), "text": text}
-        if r not in self.records:
-            self.records.append(r)
+        if r not in self.records_log:
+            self.records_log.append(r)
+
+    def type_of_text(self, text):
+        return self.ann_type(ast.parse(text, mode="eval").body)
+
+    def assume_text(self):
+        return "; ".join("%s in %s" % (k, tuple(v)) for k, v in self.assume.items())
 
     def ann_type(self, a):
         if a is None:
             return TVar()
         d = dotted(a)
+        if d in self.records:
+            return TObj(d)
+        if d in self.objects:
+            return TObj(self.objects[d]["lean_type"])
         if d in ("int",):
             return TInt
         if d in ("bool",):
@@ -297,7 +374,8 @@ class Module:
                     ds = int_lit(d.value)
                 else:
                     raise Unsupported("unsupported default value of parameter %s of %s" % (p.arg, fn.name), d)
-            fn.params.append((p.arg, self.ann_type(p.annotation), ds))
+            decl = self.spec.get("signatures", {}).get(fn.name, {}).get(p.arg)
+            fn.params.append((p.arg, self.type_of_text(decl) if (decl and p.annotation is None) else self.ann_type(p.annotation), ds))
 
     def find_measure(self, fn):
         """a parameter that every recursive call passes as `p - <positive literal>`"""
@@ -326,9 +404,18 @@ class Module:
         if fn.recursive:
             fn.measure = self.find_measure(fn)
             cx.fuel_name = cx.fresh("fuel")
+        fn.pruned = False
         body = pre + cx.block(list(fn.node.body), FnFin(cx))
-        asserts = [r["text"] for r in self.records if r["kind"] == "assert" and r["function"] == fn.name and r["file"] == fn.relfile]
+        if fn.pruned:                                      # the slice is only meaningful under the assumption: make it explicit
+            guards = []
+            for key, dom in self.assume.items():
+                ks, kt = cx.ex(ast.parse(key, mode="eval").body)
+                guards.append("(List.contains [%s] %s)" % (", ".join(int_lit(v) for v in dom), ks))
+            body = ["if !(%s) then default else" % " && ".join(guards)] + body
+        asserts = [r["text"] for r in self.records_log if r["kind"] == "assert" and r["function"] == fn.name and r["file"] == fn.relfile]
         doc = "`%s%s` of `%s`" % ((self.cls_name + ".") if fn.cls else "", fn.name, fn.relfile)
+        if fn.pruned:
+            doc += "; SLICE under the assumption %s (branches that are dead under it are not translated; outside it the result is `default`)" % self.assume_text()
         if asserts:
             doc += "; asserts of the source (hypotheses, not executed): " + "; ".join("`%s`" % a for a in asserts)
         binders = []
@@ -372,27 +459,39 @@ class Module:
                 "One definition per Python function; `self.x` attributes are the fields of the state record, state-changing",
                 "methods return the new state (paired with their result).  Helper semantics: Model/PyRt.lean.",
                 "-/",
-                "import SparseSpace.Model.PyRt",
+                "import SparseSpace.Model.PyRt"] + ["import %s" % o["import"] for o in self.objects.values()] + [
                 "set_option linter.unusedVariables false",
-                "namespace SparseSpace.Gen",
+                "namespace %s" % self.namespace,
                 "open SparseSpace", ""]
-        st = ["/-- attributes assigned through `self.` anywhere in class `%s` (an attribute that was never assigned reads as `default`) -/" % self.cls_name,
-              "structure %s where" % self.cls_name]
+        st = []
+        for name, r in self.records.items():
+            st += ["/-- declared interface of class `%s` (fields and argument-free observers that the translated functions read) -/" % name,
+                   "structure %s where" % name]
+            st += ["  %s : %s" % (ident(f), self.tref(t)) for f, t in r["fields"]]
+            st += ["  %s : %s" % (ident(m), self.tref(t)) for m, t in r["getters"].items()]
+            st += ["deriving Repr, Inhabited", ""]
+        st += ["/-- attributes assigned through `self.` anywhere in class `%s` (an attribute that was never assigned reads as `default`) -/" % self.cls_name
+               if "fields" not in self.spec else
+               "/-- the attributes of class `%s` that the translated functions use (declared in the spec) -/" % self.cls_name,
+               "structure %s where" % self.state_name]
         for f, t in self.fields.items():
             st.append("  %s : %s" % (ident(f), self.tref(t)))
         st += ["deriving Repr, Inhabited", ""]
-        text = "\n".join(head + st + [l for c in chunks for l in c + [""]] + ["end SparseSpace.Gen", ""])
+        text = "\n".join(head + st + [l for c in chunks for l in c + [""]] + ["end %s" % self.namespace, ""])
         text = re.sub(r"⟪(\d+)⟫", lambda m: lean_type(self.trefs[int(m.group(1))]), text)
         return text
 
     def side_info(self):
         return {"source": self.relfile, "class": self.cls_name,
-                "functions": [{"python": fn.name, "lean": "SparseSpace.Gen." + fn.name, "file": fn.relfile, "line": fn.node.lineno,
+                "functions": [{"python": fn.name, "lean": self.namespace + "." + fn.name, "file": fn.relfile, "line": fn.node.lineno,
                                "state_changing": fn.mutates, "result": fn.ret_mode, "static": fn.is_static,
                                "recursive_fuel_from": fn.measure} for fn in self.order],
                 "fields": {f: lean_type(t, strict=False) for f, t in self.fields.items()},
-                "asserts": [r for r in self.records if r["kind"] == "assert"],
-                "dropped": [r for r in self.records if r["kind"] == "dropped"],
+                "asserts": [r for r in self.records_log if r["kind"] == "assert"],
+                "dropped": [r for r in self.records_log if r["kind"] == "dropped"],
+                "pruned": [r for r in self.records_log if r["kind"] == "pruned"],
+                "fuel": [r for r in self.records_log if r["kind"] == "fuel"],
+                "assume": self.assume,
                 "library_bindings": sorted(list(BUILTINS) + ["math.factorial", "numpy.array", "numpy.ones", "numpy.full", "itertools.product"] + list(self.ext_classes))}
 
 
@@ -403,9 +502,13 @@ def main():
     ap.add_argument("--class", dest="cls", default="CombiScheme")
     ap.add_argument("--out", default="-")
     ap.add_argument("--json", default=None)
+    ap.add_argument("--spec", default=None, help="JSON description of a slice of a class (functions, state fields, record interfaces, assumptions, fuel)")
     a = ap.parse_args()
     try:
-        mod = Module(a.repo, a.file, a.cls)
+        spec = json.load(open(a.spec)) if a.spec else None
+        if spec:
+            a.file, a.cls = spec.get("file", a.file), spec.get("class", a.cls)
+        mod = Module(a.repo, a.file, a.cls, spec)
         text = mod.translate()
     except Unsupported as e:
         node = e.node
